@@ -6,11 +6,11 @@ import ast
 from ..loader import AnchorError, is_self_attr, parent, short, src, walk_no_nested
 from ..locks import LockAnalysis, held_at, regions
 from ..resolve import Resolver
-from ..rules import attr_writes, where
+from ..rules import accessor_field, attr_writes, where
 
 FILES = ["operon_ai/state/metabolism.py", "operon_ai/topology/quorum.py", "operon_ai/topology/loops.py", "operon_ai/core/agent.py"]
 
-CORE = {"atp", "gtp", "nadh", "_debt", "_state"}
+CORE_PUBLIC = {"atp", "gtp", "nadh"}
 OPERATIONS = ["consume", "regenerate", "transfer_to", "convert_nadh_to_atp", "reset", "enter_dormancy", "exit_dormancy"]
 # methods outside the statement's operation list, with the reason (one named symbol each)
 EXCLUDED = {
@@ -39,9 +39,9 @@ def run(p, led, tier):
     led.rule("C05-R3", "no statement executed while a store lock is held can acquire any store lock", 5)
     led.rule("C05-R4", "no write to the protected fields outside ATP_Store", 1)
 
-    if "_lock" not in la.locks:
-        raise AnchorError("ATP_Store has no threading lock attribute")
-    lock = "_lock"
+    if len(la.locks) != 1:
+        raise AnchorError(f"ATP_Store is expected to own exactly one threading lock attribute; found {sorted(la.locks)}")
+    lock = next(iter(la.locks))
     kind = la.locks[lock]
     held_entry = la.held_on_entry(lock)
     led.extra["lock"] = {"attr": lock, "kind": kind, "held_on_entry_helpers": sorted(held_entry)}
@@ -58,8 +58,9 @@ def run(p, led, tier):
             for t in tg:
                 if is_self_attr(t) and (lock in held_at(n, la.locks) or m.key in held_entry) and m.name != "__init__":
                     protected.add(t.attr)
-    if not CORE <= protected:
-        raise AnchorError(f"protected-field discovery lost core fields: {sorted(CORE - protected)}")
+    CORE = CORE_PUBLIC | {f for f in (accessor_field(p, store, "get_debt"), accessor_field(p, store, "get_state")) if f}
+    if len(CORE) < 5 or not CORE <= protected:
+        raise AnchorError(f"protected-field discovery lost core fields: {sorted(CORE - protected)} (core = balances + the fields behind get_debt/get_state)")
     led.extra["protected_fields"] = sorted(protected)
 
     for op in OPERATIONS:
